@@ -2,13 +2,13 @@ SPECIFICATION Spec
 CONSTANTS NC = 3
  K = 2
  MaxVotes = 2
- MaxLive = 3
+ MaxLive = 2
  MaxSteps = 0
  RestartAnywhere = FALSE
  Touch = {0}
- VMaps = {100}
- Persist = FALSE
- MaxChg = 3
+ VMaps = {@VMAPS@}
+ Persist = TRUE
+ MaxChg = 1
  Dev = {}
 INVARIANTS TypeOK TopIsFullSort FileOK
 PROPERTIES RestartKeepsTop
